@@ -19,6 +19,8 @@ THEOREMS = [
     "JanetModel.Props.C15.compreduce_rows_ok",
     "JanetModel.Props.C15.subtract_is_opreduce",
     "JanetModel.Props.C15.comparison_emitted_eq_generic",
+    "JanetModel.Props.C15.fast_jump_step",
+    "JanetModel.Props.C15.nil_fast_path_same_branch",
     "JanetModel.Bytecode.VM.imm_agrees",
     "JanetModel.Props.C15.inline_eq_generic_row",
     "JanetModel.Props.C15.rows_agree_partial",
